@@ -306,6 +306,21 @@ fn judge_mesh(case: &Case, l: &mut Local) {
                     _ => false,
                 };
                 l.check("mesh: a UV lookup with a transform is the lookup on the moved point", "", same, mk, || format!("{:?} vs {:?}", a, b));
+                // moving the mesh in place keeps its UV map: the same UV coordinates now give the moved surface point,
+                // and moving it back restores the original
+                let mut mm = mu.clone();
+                mm.transform(&iso);
+                let uvq = engeom::Point2::new(on.x + 0.31 * on.z, on.y - 0.17 * on.z);
+                let before = mu.uv_to_3d(&uvq);
+                let after = mm.uv_to_3d(&uvq);
+                mm.transform(&iso.inverse());
+                let restored = mm.uv_to_3d(&uvq);
+                let kept = match (&before, &after, &restored) {
+                    (Some(b0), Some(a1), Some(r2)) => d3(&(iso * b0.point), &a1.point) <= tol && ((iso * b0.normal.into_inner()) - a1.normal.into_inner()).norm() <= 1e-9 && d3(&b0.point, &r2.point) <= tol,
+                    (None, None, None) => true,
+                    _ => false,
+                };
+                l.check("mesh: a mesh moved in place keeps its UV map, and the map follows the motion", "", kept && mm.uv().is_some(), mk, || format!("uv {:?}: before {:?} after {:?} restored {:?}", uvq, before.map(|x| x.point), after.map(|x| x.point), restored.map(|x| x.point)));
             }
         }
         // the trait spellings of moving a list of points, for an owned vector and for a slice
@@ -319,6 +334,18 @@ fn judge_mesh(case: &Case, l: &mut Local) {
         let bulk = engeom::common::points::transform_points(mesh.vertices(), &iso);
         let mean_a = engeom::common::points::mean_point(mesh.vertices());
         let mean_b = engeom::common::points::mean_point(&bulk);
+        // weighted means (weights that do not add up to the number of points) and the weighted principal axes
+        {
+            let pts = mesh.vertices();
+            for wsel in 0..3 {
+                let w: Vec<f64> = (0..pts.len()).map(|i| match wsel { 0 => 0.25, 1 => [0.5, 1.0, 2.0, 3.0][i % 4], _ => 1.0 / pts.len() as f64 }).collect();
+                let ma = engeom::common::points::mean_point_weighted(pts, &w);
+                let mb = engeom::common::points::mean_point_weighted(&bulk, &w);
+                let wsum: f64 = w.iter().sum();
+                let direct = Point3::from(pts.iter().zip(w.iter()).fold(Vector3::zeros(), |a, (p, x)| a + p.coords * *x) / wsum);
+                l.check("points: the weighted mean is the weighted average and commutes with the motion", "", d3(&(iso * ma), &mb) <= tol && d3(&ma, &direct) <= 1e-9, mk, || format!("weights {}: {:?} moved {:?} against {:?}; direct {:?}", wsel, ma, iso * ma, mb, direct));
+            }
+        }
         l.check("points: bulk transformation and the mean commute with the motion", "", bulk.iter().zip(mesh.vertices().iter()).all(|(b, a)| d3(b, &(iso * a)) <= tol) && d3(&(iso * mean_a), &mean_b) <= tol, mk, String::new);
     }
     let normals: Vec<Option<Vector3>> = f.iter().map(|t| tri_normal(&v[t[0] as usize], &v[t[1] as usize], &v[t[2] as usize])).collect();
